@@ -5,6 +5,7 @@
 #   4 circ: 1 = skip the real range-for loops, 5 cases per query (the symbolic selector ranges over them).
 _C05_MINI = 20
 _C05_COUNTS = dict(BASE_COUNTS); _C05_COUNTS[_C05_MINI] = (2, 1, 0, 0)
+_C05_COUNTS[B_TET3_RING] = (5, 10, 9, 3); _C05_COUNTS[B_PRISM_PYR] = (7, 13, 9, 2)   # specs.BASE_COUNTS has 9 resp. 12 edges for these two (measured: 10, 13)
 
 def _c05_ncases(base, kind, mode):
     if kind == 0: return 1
@@ -41,29 +42,31 @@ def _c05_all(base, kind): return list(range(_C05_COUNTS[base][kind - 1])) if kin
 
 _c05_iter_quick = _c05_iter_shards([
     (B_EMPTY, 0, 0), (_C05_MINI, 0, 0), (_C05_MINI, 1, 0), (_C05_MINI, 2, 0),
-    (B_LOWDIM, 0, 0), (B_LOWDIM, 1, 0), (B_LOWDIM, 2, 0), (B_LOWDIM, 3, 0),
-    (B_TET, 0, 0), (B_TET, 1, 1), (B_TET, 2, 1), (B_TET, 3, 0, 5), (B_TET, 4, 0),
-    (B_TET2_FACE, 0, 0), (B_TET2_FACE, 4, 0), (B_TET2_FACE, 1, 1, 5)])
+    (B_LOWDIM, 0, 0), (B_LOWDIM, 1, 2, 4), (B_LOWDIM, 2, 2, 4), (B_LOWDIM, 3, 0),
+    (B_TET, 0, 0), (B_TET, 1, 1, 4), (B_TET, 2, 1, 3), (B_TET, 3, 2, 4), (B_TET, 4, 0),
+    (B_TET2_FACE, 0, 0), (B_TET2_FACE, 4, 0, 3)]) + [{0: B_TET2_FACE, 1: 1, 2: 0, 3: 1, 5: 1}, {0: B_TET2_FACE, 1: 1, 2: 4, 3: 1, 5: 1}]
 _c05_iter_thorough = _c05_iter_shards(
     [(B_EMPTY, 0, 0), (_C05_MINI, 0, 0), (_C05_MINI, 1, 0), (_C05_MINI, 2, 0)] +
     [(b, k, 0, 6) for b in (B_LOWDIM, B_TET, B_TET2_FACE) for k in range(5) if k == 0 or _C05_COUNTS[b][k - 1]] +
     [(b, k, 2, 4) for b in (B_TET3_RING, B_HEX, B_PRISM_PYR) for k in range(5)])
 
+_G4 = [1, 2, 4, 8]   # one query per centre group
 _c05_circ_quick = _c05_circ_shards(
     [(B_LOWDIM, 0, [0], 1, [0])] + [(B_LOWDIM, k, _c05_all(B_LOWDIM, k), 3, [0]) for k in (1, 2, 3)] +
-    [(B_TET, 0, [0], 1, [0]), (B_TET, 1, [0, 3], 1, [0]), (B_TET, 2, [0, 2, 5], 1, [0]), (B_TET, 3, [0, 3], 1, [0]), (B_TET, 4, [0], 1, [0])] +
-    [(B_TET2_FACE, 0, [0], 1, [1, 2, 4, 8]), (B_TET2_FACE, 4, [1], 1, [1, 2, 4, 8]), (B_TET2_FACE, 1, [4], 1, [1, 2, 4, 8])])
+    [(B_TET, 0, [0], 1, [0]), (B_TET, 1, [0, 3], 1, [0]), (B_TET, 2, [0, 5], 1, [0]), (B_TET, 3, [0], 1, [0]), (B_TET, 4, [0], 1, [0])] +
+    [(B_TET2_FACE, 0, [0], 1, _G4), (B_TET2_FACE, 4, [1], 1, _G4), (B_TET2_FACE, 1, [4], 1, _G4)])
 _c05_circ_thorough = _c05_circ_shards(
     [(b, 0, [0], 1, [0]) for b in (B_LOWDIM, B_TET)] +
     [(B_LOWDIM, k, _c05_all(B_LOWDIM, k), 3, [0]) for k in (1, 2, 3)] +
     [(B_TET, k, _c05_all(B_TET, k), 2, [0]) for k in (1, 2, 3, 4)] +
-    [(B_TET2_FACE, k, _c05_all(B_TET2_FACE, k), 1, [1, 2, 4, 8]) for k in (0, 1, 2, 3, 4)] +
-    [(B_TET3_RING, 0, [0], 1, [1, 2, 4, 8]), (B_TET3_RING, 1, [0, 2, 4], 1, [1, 2, 4, 8]), (B_TET3_RING, 2, [0, 8], 1, [1, 2, 4, 8]),
-     (B_TET3_RING, 3, [0, 1, 8], 1, [1, 2, 4, 8]), (B_TET3_RING, 4, [0, 1, 2], 1, [1, 2, 4, 8])])
+    [(B_TET2_FACE, 0, [0], 1, _G4), (B_TET2_FACE, 1, [0, 1, 2, 3, 4], 1, _G4), (B_TET2_FACE, 2, [0, 3, 8], 1, _G4),
+     (B_TET2_FACE, 3, [0, 3, 6], 1, _G4), (B_TET2_FACE, 4, [0, 1], 1, _G4)] +
+    [(B_TET3_RING, 0, [0], 1, _G4), (B_TET3_RING, 1, [0, 4], 1, _G4), (B_TET3_RING, 2, [0, 9], 1, _G4),
+     (B_TET3_RING, 3, [0, 8], 1, _G4), (B_TET3_RING, 4, [0], 1, _G4)])
 _c05_circ_big = _c05_circ_shards(
-    [(b, 0, [0], 1, [1, 2, 4, 8]) for b in (B_HEX, B_PRISM_PYR)] +
-    [(B_HEX, 1, [0, 7], 1, [1, 2, 4, 8]), (B_HEX, 2, [0, 11], 1, [1, 2, 4, 8]), (B_HEX, 3, [0, 5], 1, [1, 2, 4, 8]),
-     (B_PRISM_PYR, 1, [6], 1, [1, 2, 4, 8]), (B_PRISM_PYR, 3, [3], 1, [1, 2, 4, 8]), (B_PRISM_PYR, 4, [0, 1], 1, [1, 2, 4, 8])])
+    [(b, 0, [0], 1, _G4) for b in (B_HEX, B_PRISM_PYR)] +
+    [(B_HEX, 1, [0, 7], 1, _G4), (B_HEX, 2, [0, 11], 1, _G4), (B_HEX, 3, [0, 5], 1, _G4),
+     (B_PRISM_PYR, 1, [6], 1, _G4), (B_PRISM_PYR, 3, [3], 1, _G4), (B_PRISM_PYR, 4, [0, 1], 1, _G4)])
 
 _C05_CIRC_BOUNDS = ("each query: the listed base mesh in deferred-deletion mode + at most ONE deleted entity (with its upward closure) chosen by a symbolic selector "
                     "over the entities of the shard (param 2 .. 2+param 5-1 of kind param 1); every live centre of every one of the 26 circulators is enumerated; "
@@ -76,12 +79,12 @@ PROPS["C05"] = dict(
     dict(name="c05-iter", harness="C05_iter.cpp", entries=["harness_c05_iter"], units=CORE, unwind=30, checks="none", object_bits=13,
          shards={"quick": _c05_iter_quick, "thorough": _c05_iter_thorough}, timeout={"quick": 300, "thorough": 900}, mem_gb=6,
          bounds="entity iterators V/E/HE/F/HF/C on bases EMPTY, MINI(2V+1E), LOWDIM, TET, TET2_FACE (thorough: + TET3_RING, HEX, PRISM_PYR) in deferred mode with 0..2 "
-                "deleted entities of one kind plus their upward closure (quick: all pairs on LOWDIM V/E, TET F, TET2_FACE C, MINI; singles elsewhere); the deleted set "
+                "deleted entities of one kind plus their upward closure (quick: MINI and TET2_FACE cells: all subsets of size <= 2; LOWDIM V,E and TET F: singles + (0,1),(n-2,n-1),(0,n-1); TET V,E singles; TET2_FACE V0,V4; thorough: all pairs on LOWDIM/TET/TET2_FACE, singles + 3 pairs on the others); the deleted set "
                 "is chosen by a symbolic selector (<= 8 per query); start handle of the iterator constructor symbolic in [0,n]; walks are complete (all positions)"),
     dict(name="c05-circ", harness="C05_circ.cpp", entries=["harness_c05_circ"], units=CORE, unwind=40, checks="none", object_bits=13,
          shards={"quick": _c05_circ_quick, "thorough": _c05_circ_thorough}, timeout={"quick": 300, "thorough": 900}, mem_gb=6,
-         bounds=_C05_CIRC_BOUNDS + "; bases LOWDIM (all single deletions), TET (quick: none,V0,V3,E0,E2,E5,F0,F3,C0; thorough: all), TET2_FACE (quick: none, C1, V4; "
-                "thorough: all single deletions), thorough also TET3_RING (none + 11 deletions); incident lists up to 12 elements"),
+         bounds=_C05_CIRC_BOUNDS + "; bases LOWDIM (all single deletions), TET (quick: none,V0,V3,E0,E5,F0,C0; thorough: all), TET2_FACE (quick: none, C1, V4; "
+                "thorough: none, all V, E0/3/8, F0/3/6, both C), thorough also TET3_RING (none, V0/4, E0/9, F0/8, C0); incident lists up to 12 elements"),
     dict(name="c05-circ-big", harness="C05_circ.cpp", entries=["harness_c05_circ"], units=CORE, unwind=80, checks="none", object_bits=14, tiers=["thorough"],
          shards={"thorough": _c05_circ_big}, timeout=1500, mem_gb=10,
          bounds=_C05_CIRC_BOUNDS + "; bases HEX and PRISM_PYR (none + first/last vertex, edge, face resp. one vertex, the shared quad, each cell); incident lists up to 24 elements"),
